@@ -12,7 +12,7 @@ def new_line(cl, mds, pc, hc, tok, pn, mf, mt):
 def gen_random(r, n_ops, disciplined=True):
     """one random case.  `disciplined`: frame bodies sized like connection.py does
     (within the space the builder reported), otherwise arbitrary pushes."""
-    mds = r.choice([1200, 1200, 1252, 1350, 1500])
+    mds = r.choice([1200, 1200, 1252, 1280, 1350, 1500])
     cl = r.random() < 0.5
     pc, hc = r.choice([(8, 8), (8, 8), (0, 8), (20, 20), (4, 0)])
     tok = r.choice([0, 0, 0, 16, 70])
@@ -33,6 +33,20 @@ def gen_random(r, n_ops, disciplined=True):
     case = [new_line(cl, mds, pc, hc, tok, r.choice([0, 7, 65535]), mf, mt)]
     # a light-weight shadow of the space so that disciplined pushes can be sized
     open_pkt = False
+    if disciplined and r.random() < 0.3:
+        # a datagram that needs padding because of an Initial, with later packets coalesced
+        # behind it, and budgets between 1200 and the buffer size
+        if r.random() < 0.7:
+            mf = r.choice([None, 1200, 1201, r.randrange(1200, mds + 1), mds - 1, mds, 2 * mds - r.randrange(0, 90)])
+            mt = r.choice([None, None, 1200, r.randrange(1200, mds + 1), mds, 3600 - r.randrange(0, 100)])
+            case = [new_line(cl, mds, pc, hc, tok, r.choice([0, 7]), mf, mt)]
+        case += ["bld.start_packet I", f"bld.start_frame {r.choice([6, 6, 2, 1])} {r.choice([20, 64])}",
+                 "bld.push @" + r.choice(["cap", "half", "1"])]
+        if r.random() < 0.4:
+            case += ["bld.start_packet H", "bld.start_frame 6 20", "bld.push @" + r.choice(["cap", "half"])]
+        case += ["bld.start_packet " + r.choice(["O", "O", "Z"]), f"bld.start_frame {r.choice([8, 8, 2, 1, 26])} {r.choice([1, 10, 64])}",
+                 "bld.push @" + r.choice(["0", "1", "cap", "half", "all"])]
+        open_pkt = True
     for _ in range(n_ops):
         x = r.random()
         if not open_pkt or x < 0.22:
@@ -141,3 +155,32 @@ def gen_exhaustive():
                 continue
             for sc in scripts:
                 yield [new_line(cl, 1200, 8, 8, 0, 0, mf, mt)] + sc
+
+
+def gen_coalesce():
+    """small scope: a padding-requiring Initial with Handshake / 0-RTT / 1-RTT packets coalesced
+    behind it x budgets around 1200 .. max_datagram_size (flight < buffer, total < buffer, both)
+    x max_datagram_size 1200 / 1280 / 1350 / 1500 x client | server"""
+    tails = [
+        ["bld.start_packet O", "bld.start_frame 8 10", "bld.push @cap"],
+        ["bld.start_packet O", "bld.start_frame 8 10", "bld.push @half"],
+        ["bld.start_packet O", "bld.start_frame 8 10", "bld.push @all"],
+        ["bld.start_packet O", "bld.start_frame 2 64", "bld.push @cap"],
+        ["bld.start_packet O", "bld.start_frame 1 1"],
+        ["bld.start_packet H", "bld.start_frame 6 20", "bld.push @cap", "bld.start_packet O", "bld.start_frame 8 10", "bld.push @cap"],
+        ["bld.start_packet Z", "bld.start_frame 8 10", "bld.push @half", "bld.start_packet O"],
+    ]
+    heads = [
+        ["bld.start_packet I", "bld.start_frame 6 20", "bld.push @cap"],
+        ["bld.start_packet I", "bld.start_frame 6 20", "bld.push @half"],
+        ["bld.start_packet I", "bld.start_frame 2 64", "bld.push @cap"],
+    ]
+    for mds in (1200, 1280, 1350, 1500):
+        mid = (1200 + mds) // 2
+        grid = sorted({None, 1199, 1200, 1201, mid, mds - 1, mds, mds + 1, 2 * mds - 40}, key=lambda v: -1 if v is None else v)
+        for cl in (False, True):
+            for mf in grid:
+                for mt in grid:
+                    for h in heads:
+                        for t in tails:
+                            yield [new_line(cl, mds, 8, 8, 0, 0, mf, mt)] + h + t + ["bld.flush"]
